@@ -32,7 +32,11 @@ func (e *fnEnc) pi() *passInfo { return passOf[e] }
 
 func (e *fnEnc) logMod(comp string, s Sort) {
 	p := e.pi()
-	p.modLog = append(p.modLog, modEntry{e.curBlock, comp, s})
+	blk := e.curBlock
+	if e.hostBlock != nil {
+		blk = e.hostBlock // effects of inlined code belong to the call site's block (loop analysis)
+	}
+	p.modLog = append(p.modLog, modEntry{blk, comp, s})
 }
 
 // EncodeFunc builds the verification conditions of one function under contract.
@@ -259,7 +263,9 @@ func (e *fnEnc) run() (err error) {
 			e.obligationNoAssume("always", clauseLabel(cl, i)+":exit", exitReach, e.evalBool(cl.E, env), cl.Text, cl.Line)
 		}
 		var cases []string
-		if len(e.retSt) > 8 {
+		// one query per return point for functions with many returns, or on request
+		// (`mode splitreturns`: cheaper queries for a heavy postcondition)
+		if len(e.retSt) > 8 || (len(e.retSt) > 1 && strings.Contains(e.ctr.Options["mode"], "splitreturns")) {
 			for _, rp := range e.retSt {
 				cases = append(cases, rp.reach.S)
 			}
@@ -303,6 +309,9 @@ func (e *fnEnc) entryEnv(st *state) *specEnv {
 
 func (e *fnEnc) obligation(kind, name string, reach, goal Term, src, pos string, cover bool) *Obligation {
 	full := e.shortFuncName() + "#" + kind
+	if e.ns != "" {
+		full += ":inlined " + shortCallee(canonFuncName(e.fn.String()))
+	}
 	if name != "" {
 		full += ":" + name
 	}
@@ -379,7 +388,10 @@ func (e *fnEnc) encodeBlock(b *ssa.BasicBlock) {
 		}
 		ins = append(ins, inEdge{p, c, i})
 	}
-	if b.Index == 0 {
+	if b.Index == 0 && e.inlEntry != nil {
+		reach = e.inlEntry.reach
+		st = e.inlEntry.st.clone()
+	} else if b.Index == 0 {
 		reach = tTrue
 		st = e.entrySt.clone()
 	} else {
@@ -393,7 +405,7 @@ func (e *fnEnc) encodeBlock(b *ssa.BasicBlock) {
 		for _, in := range ins {
 			cs = append(cs, in.cond)
 		}
-		rc := e.declare(fmt.Sprintf("reach.%d", b.Index), SBool)
+		rc := e.declare(fmt.Sprintf("reach.%s%d", e.ns, b.Index), SBool)
 		e.assert(eq(rc, or(cs...)))
 		reach = rc
 		// merge states
@@ -533,12 +545,12 @@ func (e *fnEnc) valName(v ssa.Value) string {
 	if phi, ok := v.(*ssa.Phi); ok && phi.Comment != "" {
 		n += "." + phi.Comment
 	}
-	return "v." + n
+	return "v." + e.ns + n
 }
 
 // mergeStates joins predecessor states.
 func (e *fnEnc) mergeStates(b *ssa.BasicBlock, first *ssa.BasicBlock, each func(func(*state, Term))) *state {
-	return e.mergeStatesNamed(fmt.Sprintf("b%d", b.Index), each)
+	return e.mergeStatesNamed(fmt.Sprintf("b%s%d", e.ns, b.Index), each)
 }
 
 func (e *fnEnc) mergeStatesNamed(label string, each func(func(*state, Term))) *state {
